@@ -33,7 +33,7 @@ class C32(Spec):
                   "(accepted_three_strikes, run_three_strikes); acknowledged ranges strictly increasing — and gap-free "
                   "for dense subscriptions — from the resume point when no record is lost (…_partial); the full "
                   "statement over histories with lost records is refuted (delivered_full_false). The batch loop of "
-                  "getTxReceipts/getEVMEvent after fix 87f57a6 (batchNew): the payload holds exactly the matching blocks "
+                  "getTxReceipts after fix 87f57a6 (batchNew): the payload holds exactly the matching blocks "
                   "of the range gone over, the first matching block is sent whatever its size, a non-empty range is "
                   "always advanced over, so an oversize first block is posted and the task never stalls "
                   "(batch_delivers_every_matching_block, batch_first_match_sent, batch_progress, "
@@ -48,7 +48,7 @@ class C32(Spec):
                   "the compiled specification (strict for histories without injected store faults); the predicate is "
                   "also evaluated directly on the log and on the payload contents (every matching block listed, nothing "
                   "else, nothing twice).")
-    level_note = ("PushEVMEvent is not driven (getEVMEvent has the same loop as getTxReceipts); the data source is "
+    level_note = ("PushEVMEvent is not driven: getEVMEvent still has the OLD size rule (batchOld: exact-fit block dropped, oversize first block never sent) because the existing test Test_PostEVMEvent_bigsize pins that behaviour (repo commit dbb0015 restored it); the data source is "
                   "abstract (a pass covers last+1..last+n; which sequences hold matching data is an oracle input, the "
                   "harness checks the payloads against the blocks); timers (1 s retry sleeps), HTTP and goroutine "
                   "scheduling are runtime — liveness in Lean is the one-step statement oversize_first_block_is_posted / "
